@@ -296,6 +296,37 @@ pub fn run_history(g: u64, steps: &[Step], rep: &mut Report) {
             }
         }
         let before = p.ledger.clone();
+        // the window edge from the other side: the outputs of the block that the NEXT block will
+        // rebroadcast are already outside the window for that block -- a user spend of one of
+        // them must be refused now, or the output is handled twice
+        {
+            let h = blocks.last().unwrap().id + 1;
+            if h > g + 1 {
+                if let Some(x) = blocks.iter().find(|b| b.id == h - g - 1) {
+                    for t in x.transactions.iter() {
+                        for sl in t.to.iter() {
+                            if sl.amount > 0 && sl.slip_type != SlipType::Bound && before.utxo.contains(&sl.get_utxoset_key()) {
+                                if let Some(owner) = (0..10u8).map(key).find(|k| k.public == sl.public_key) {
+                                    let spend = make_tx(&[sl.clone()], &[(owner.public, sl.amount)], &owner, ts.saturating_sub(1), b"edge");
+                                    if let Outcome::Done(true) = p.submit(spend.clone()) {
+                                        rep.violate("expiring-output-spendable-in-the-block-that-rebroadcasts-it", format!("before block {}: output {} of block {} admitted to the pool", h, sl.amount, x.id), ctx.clone());
+                                        let mp = p.node.mempool.clone();
+                                        let sig = spend.signature;
+                                        let _ = run(async move {
+                                            let mut m = mp.write().await;
+                                            m.transactions.remove(&sig);
+                                            m.utxo_map.clear();
+                                        });
+                                    } else {
+                                        rep.outcome("expiring-output-refused-before-its-rebroadcast");
+                                    }
+                                }
+                            }
+                        }
+                    }
+                }
+            }
+        }
         match p.bundle(ts, s.gt) {
             Produced::Block(bytes) => {
                 let (a, _b) = p.commit(&bytes);
